@@ -522,6 +522,71 @@ def real_streams(ctx):
                     th.join(5)
 
 
+def ended_stays_ended(ctx):
+    """'every request that was pending ... or issued afterwards fails with EOFError' - and keeps failing that way when the process
+    moves on: after a connection over real descriptors has ended, new descriptors are opened (they get the numbers just released,
+    and stay idle); waiting for a request that was pending, serving, polling and issuing a new request on the ended connection must
+    all fail with EOFError at once - not wait on somebody else's descriptor until a time limit runs out."""
+    import socket
+    import rpyc
+    from rpyc.core import consts, stream as stream_mod
+    from rpyc.core.channel import Channel
+    for transport in ("socketpair", "pipes"):
+        for ending in ("local-close", "peer-gone"):
+            if transport == "socketpair":
+                s1, s2 = socket.socketpair()
+                vstream, other = stream_mod.SocketStream(s1), s2
+            else:
+                vstream, other = stream_mod.PipeStream.create_pair()
+            victim = rpyc.VoidService()._connect(Channel(vstream), {"sync_request_timeout": 0.4})
+            wit = dict(family="ended-stays-ended", transport=transport, ending=ending)
+            spare = []
+            try:
+                victim.poll(0)                                   # the connection has been polled at least once while alive
+                pending = victim.async_request(consts.HANDLE_PING, "never answered")
+                pending.set_expiry(0.4)
+                if ending == "local-close":
+                    victim.close()
+                else:
+                    other.close()
+                    try:
+                        victim.serve(0.2)                        # meets end-of-stream while serving
+                    except EOFError:
+                        pass
+                if not victim.closed:
+                    ctx.violation("C11/real/%s/ended/not-closed" % transport, "after %s the connection does not report closed" % ending, wit)
+                    continue
+                # the process moves on: idle descriptors that take over the numbers just released
+                for _ in range(3):
+                    spare.extend(socket.socketpair())
+                outcomes = {}
+                for what, thunk in (("wait for the pending request", pending.wait), ("serve", lambda: victim.serve(0.4)), ("poll", lambda: victim.poll(0.4)),
+                                    ("new request", lambda: victim.sync_request(consts.HANDLE_PING, "after the end"))):
+                    try:
+                        outcomes[what] = "returned %r" % (thunk(),)
+                    except EOFError:
+                        outcomes[what] = "EOFError"
+                    except BaseException as e:
+                        outcomes[what] = type(e).__name__
+                ctx.case(("ended-stays-ended", transport, ending), nontrivial=True)
+                ctx.count("ended_connection_probes", len(outcomes))
+                wrong = {k: v for k, v in outcomes.items() if v != "EOFError"}
+                if wrong:
+                    ctx.violation("C11/real/%s/ended/later-use-does-not-fail-with-EOFError" % transport, "after %s, with new descriptors opened in the process, using the ended "
+                                  "connection gave %r instead of EOFError" % (ending, wrong), wit)
+            finally:
+                for x in spare:
+                    x.close()
+                try:
+                    other.close()
+                except Exception:
+                    pass
+                try:
+                    victim.close()
+                except BaseException:
+                    pass
+
+
 def local_close_wakes_waiters(ctx):
     """'every request that was blocked waiting fails with EOFError: none hangs' when the LOCAL side closes: a thread of the closing
     side sits in a request to a peer that stays silent (no time limit), another thread of the same side calls close(). Real
@@ -604,6 +669,7 @@ def run(ctx):
     jobs = []
     told_to_close(ctx)
     if ctx.shard[0] == 0:
+        ended_stays_ended(ctx)
         local_close_wakes_waiters(ctx)
         real_streams(ctx)
         if ctx.enough():
